@@ -146,7 +146,7 @@ func (ctxt *CredentialHelperContext) SetStateFields(fields []string) {
 // It returns an error if any configuration was invalid, or otherwise
 // un-useable.
 func (ctxt *CredentialHelperContext) GetCredentialHelper(helper CredentialHelper, u *url.URL) CredentialHelperWrapper {
-	rawurl := fmt.Sprintf("%s://%s%s", u.Scheme, u.Host, u.Path)
+	rawurl := fmt.Sprintf("%s://%s%s", u.Scheme, u.Host, u.EscapedPath())
 	input := Creds{"protocol": []string{u.Scheme}, "host": []string{u.Host}}
 	if u.User != nil && u.User.Username() != "" {
 		input["username"] = []string{u.User.Username()}
